@@ -206,7 +206,7 @@ def run(ctx):
     it.reset([])
     a = it.call_function(gt, [sobj, "t", "setvalue"], {}, None, gt.node)
     b2 = it.call_function(gt, [sobj, "t", "setgeopoint"], {}, None, gt.node)
-    r3.check(a == sv_map["${t}"] and b2 == sg_map["${t}"], "get_trigger_values_for_question_name", "looks up ${name} in the matching map", gt.loc())
+    r3.check(a is not None and a == sv_map.get("${t}") and b2 is not None and b2 == sg_map.get("${t}"), "get_trigger_values_for_question_name", "looks up ${name} in the matching map", gt.loc())
     rules.append(r3)
 
     # ------------------------------------------------------------------ R5
